@@ -119,8 +119,23 @@ def run_checks(ids, all_checks):
         print(name, "caught by", meta["caught_by"], "|", results.get(meta["property"], {}).get("first", "")[:160])
 
 
+def table():
+    """markdown table of the seeded changes for DESIGN.md"""
+    print("| change | file(s) | what the edit does | caught by | first failing input reported | history |")
+    print("|---|---|---|---|---|---|")
+    for d in sorted(glob.glob(os.path.join(SEEDED, "C*-*"))):
+        m = json.load(open(os.path.join(d, "meta.json")))
+        r = m.get("checks_run", {}).get(m["property"], {})
+        first = (r.get("first") or ("(correspondence / proof obligation only: no-failing-input-found)" if r.get("no_failing_input") else "")).replace("|", "\\|").replace("\n", " ")[:150]
+        files = ", ".join(os.path.basename(f) for f in (m.get("files") or []))
+        what = (m.get("summary") or "").replace("|", "\\|").replace("\n", " ")[:220]
+        print(f"| {os.path.basename(d)} | {files} | {what} | {', '.join(m.get('caught_by') or []) or 'MISSED'} | {first} | {m.get('first_run', '')} |")
+
+
 def main():
     a = sys.argv[1:]
+    if a and a[0] == "table":
+        return table()
     if a and a[0] == "import":
         do_import(a[1], a[2] if len(a) > 2 else "")
     elif a and a[0] == "run":
